@@ -43,14 +43,18 @@ def run_once(case, workdir, name, seed):
         files["sources.yml"] = c01.sources_yaml(c["source"])
     c["files"] = files
     cmirun.write_case(d, c, c01.ion_params(c))
-    r = cmirun.run(d, ["--params", "params.yml", "--task-based", "--threads", "1"], timeout=120)
+    r = cmirun.run(d, ["--params", "params.yml", "--task-based", "--threads", "1"], timeout=600, cpu_limit=120)
     return d, r
 
 
 def check_determinism(case, workdir):
     r = pbt.Result()
     runs = []
-    for name, seed in (("a", case["seed"]), ("b", case["seed"]), ("c", case["seed"] + 1 + case["seed_delta"])):
+    # seed 0 is documented to map to seed 1: for it the third run uses seed 1
+    # and must be IDENTICAL; for every other seed the third run uses another
+    # seed and must differ
+    other = 1 if case["seed"] == 0 else case["seed"] + 1 + case["seed_delta"]
+    for name, seed in (("a", case["seed"]), ("b", case["seed"]), ("c", other)):
         d, run = run_once(case, workdir, name, seed)
         if run["timeout"]:
             r.inconclusive = "run timed out"
@@ -70,6 +74,16 @@ def check_determinism(case, workdir):
             return r.fail("snapshot %s differs between two runs with the same seed %d and one thread" % (f, case["seed"]))
     last = sorted(a)[-1]
     r.nontrivial = case["photons"] >= 100
+    r.label("writer-" + case["writer"])
+    if case["writer"] != "AsciiFile":
+        # the HDF5 snapshot embeds the parameter file (incl. the seed), so runs
+        # with different seeds cannot be compared byte-wise through it
+        return r
+    if case["seed"] == 0:
+        r.label("seed-0")
+        if a[last] != c.get(last):
+            return r.fail("final snapshot %s differs between seed 0 and seed 1 (seed 0 maps to 1)" % last)
+        return r
     if case["photons"] >= 100 and a[last] == c.get(last):
         return r.fail("final snapshot %s is identical for seeds %d and %d: the seed has no effect" % (
             last, case["seed"], case["seed"] + 1 + case["seed_delta"]))
@@ -83,15 +97,16 @@ def cases(draw):
     c["jitter"] = None
     c["photons"] = draw(st.sampled_from([100, 333, 1000, 2500, 4000]))
     c["iterations"] = draw(st.integers(1, 3))
-    c["seed"] = draw(st.one_of(st.integers(1, 2 ** 31 - 2), st.sampled_from([1, 42, 2 ** 31 - 2])))
+    c["seed"] = draw(st.one_of(st.integers(1, 2 ** 31 - 2), st.sampled_from([0, 0, 0, 1, 42, 2 ** 31 - 2])))
     c["seed_delta"] = draw(st.integers(0, 1000))
+    c["writer"] = draw(st.sampled_from(["AsciiFile", "AsciiFile", "Gadget"]))
     return c
 
 
 SUBS = [
-    pbt.Sub("same_seed_same_output", cases(), check_determinism, quick=48, thorough=1200,
+    pbt.Sub("same_seed_same_output", cases(), check_determinism, quick=64, thorough=1200,
             shrink_budget=6,
-            rule="photoionization problems from the C01 generator (grids, layouts, source mixes, diffuse field, copies) with 100..4000 packets, 1-3 iterations, seeds over the 31-bit range; runs a,b with the same seed and one thread must write byte-identical snapshots (creation-time attribute blanked), run c with another seed must differ; non-trivial: >= 100 packets"),
+            rule="photoionization problems from the C01 generator (grids, layouts, source mixes, diffuse field, copies) with 100..4000 packets, 1-3 iterations, seeds over the 31-bit range incl. 0 (which must behave as seed 1); runs a,b with the same seed and one thread must write byte-identical snapshots (creation-time attribute blanked), run c with another seed must differ (compared through the ASCII writer, whose files contain cell data only); non-trivial: >= 100 packets"),
 ]
 
 if __name__ == "__main__":
